@@ -181,15 +181,19 @@ def ops_namespace(root=None) -> Dict[str, Any]:
     def First(s):
         return _seq(s)[0] if not isinstance(s, types.GeneratorType) else next(s)
 
+    def _fold(s):
+        "the folds (len / Count / Sum / Aggregate) also range over a tuple built from a sequence: len(tuple(...))"
+        return s if isinstance(s, tuple) else _seq(s)
+
     def Count(s):
-        return len(_seq(s)) if not isinstance(s, types.GeneratorType) else len(list(s))
+        return len(_fold(s)) if not isinstance(s, types.GeneratorType) else len(list(s))
 
     def Sum(s):
-        return sum(_seq(s))
+        return sum(_fold(s))
 
     def Aggregate(s, init, f):
         acc = init
-        for x in _seq(s):
+        for x in _fold(s):
             acc = f(acc, x)
         return acc
 
@@ -200,6 +204,7 @@ def ops_namespace(root=None) -> Dict[str, Any]:
 
     ns = {"Select": Select, "Where": Where, "SelectMany": SelectMany, "First": First, "Count": Count,
           "len": Count, "Sum": Sum, "Aggregate": Aggregate, "MetaData": MetaData, "abs": abs,
+          "sum": sum, "any": any, "all": all, "list": list, "tuple": tuple,
           "ResultAwkwardArray": lambda s, cols: Term("ResultAwkwardArray", s, cols),
           "ResultPandasDF": lambda s, cols: Term("ResultPandasDF", s, cols),
           "ResultTTree": lambda s, cols, tree, fname: Term("ResultTTree", s, cols, tree, fname),
@@ -714,6 +719,8 @@ class ProgGen:
         self.hcount = 0
         self.gcount = 0
         self.in_helper = 0
+        self.private: set = set()          # module globals created for one generator expression: never used again
+        self.in_genexp = 0
         self.reserved: set = set()                     # the parameter of the lambda being written (used through projections)
         self.force_scope = None                        # inside a module-level helper only module globals are visible
 
@@ -784,8 +791,12 @@ class ProgGen:
         return name
 
     def capture_of(self, kind: str, env) -> str:
+        if self.in_genexp and not self.in_helper:
+            n = self.new_capture(kind, env)
+            self.private.add(n)
+            return n
         have = [n for n, (sc, k) in self.caps.items() if k == kind and n not in {x for x, _ in env}
-                and (self.force_scope is None or sc == self.force_scope)
+                and (self.force_scope is None or sc == self.force_scope) and n not in self.private
                 and not (self.in_helper and n.startswith("kk"))]     # a factory's parameter is not visible to a helper
         must = [n for n in have if n.startswith("kk")]
         if must and self.r.random() < 0.6:
@@ -965,6 +976,14 @@ class ProgGen:
                 cond = (" if %s" % self.bool_expr(env + [(b, REC(elt))], d - 1)) if r.random() < 0.6 else ""
                 return "len([%s for %s in %s%s])" % (self.int_expr(env + [(b, REC(elt))], d - 1), b,
                                                       self.seq_source(rec, elt), cond)
+        if k == 15 and self.mode == "callable":
+            form = r.choice(["sum", "sum", "len-list", "len-tuple-records"])
+            g = self.genexp(self.genexp_record_type(env) if form == "len-tuple-records" else INT, env, d)
+            if g is not None:
+                self.p.features.add("genexp:" + form)
+                if form == "sum":
+                    return "sum(%s)" % g
+                return "len(list(%s))" % g if form == "len-list" else "len(tuple(%s))" % g
         if k == 10:
             self.p.features.add("tuple-projection")
             es = [self.int_expr(env, d - 1) for _ in range(r.randrange(1, 4))]
@@ -1017,6 +1036,12 @@ class ProgGen:
                                    self.bool_expr(env, d - 1, shape_only))
         if d > 0 and k == 2 and not shape_only:
             return "(not %s)" % self.bool_expr(env, d - 1)
+        if k == 9 and not shape_only and self.mode == "callable" and d > 0:
+            g = self.genexp(BOOL, env, d)
+            if g is not None:
+                fn = r.choice(["any", "all"])
+                self.p.features.add("genexp:" + fn)
+                return "%s(%s)" % (fn, g)
         if k == 3 and not shape_only:
             recs = [(n, c) for n, c in self.recs(env) if c in ("Jet", "Trk")]
             if recs:
@@ -1093,12 +1118,54 @@ class ProgGen:
         return self.op_call(self.seq_expr(REC(e), env, d - 1, src=(rec, e)), "Select",
                             "lambda %s: %s" % (b, self.expr(elt_t, env + [(b, REC(e))], d - 1)))
 
+    def genexp(self, elt_t, env, d) -> Optional[str]:
+        """`<elt> for b in <seq> [if c]` whose element and condition use module globals (captured constants, helpers,
+        record classes) created for it: names that occur ONLY inside the generator expression (which has a code
+        object of its own, unlike a list comprehension)"""
+        r = self.r
+        ch = self.seq_elt_choices(env)
+        if not ch or self.mode != "callable" or self.in_helper or self.force_scope == "l":
+            return None
+        rec, e = r.choice(ch)
+        b = self.binder(env)
+        env2 = env + [(b, REC(e))]
+        src = self.seq_source(rec, e)
+        saved = self.force_scope
+        self.force_scope = "g"
+        self.in_genexp += 1
+        try:
+            elt = self.expr(elt_t, env2, max(d - 1, 1))
+            if elt_t == INT and r.random() < 0.7:
+                elt = "(%s + %s)" % (elt, self.capture_of("int", env2))
+            cond = (" if %s" % self.bool_expr(env2, 0)) if r.random() < 0.4 else ""
+        finally:
+            self.in_genexp -= 1
+            self.force_scope = saved
+        if elt is None:
+            return None
+        return "%s for %s in %s%s" % (elt, b, src, cond)
+
+    def genexp_record_type(self, env):
+        r = self.r
+        ctor = r.choice(["P2", "N2", "R3", "R5", "R6"])
+        if ctor in RECORD_CLASSES:
+            pos, kwo, req = RECORD_CLASSES[ctor]
+            names = [n for n in pos + kwo if n in req or r.random() < 0.5]
+        else:
+            names = {"P2": ["x", "y"], "N2": ["u", "v"]}[ctor]
+        return DCT(ctor, [(n, INT) for n in names])
+
     def pyl_expr(self, elt_t, env, d) -> Optional[str]:
         """a single-for comprehension (list or generator)"""
         r = self.r
         ch = self.seq_elt_choices(env)
         if not ch:
             return None
+        if self.mode == "callable" and r.random() < 0.3:
+            g = self.genexp(elt_t, env, d)
+            if g is not None:
+                self.p.features.add("genexp:list")
+                return "list(%s)" % g
         rec, e = r.choice(ch)
         b = self.binder(env)
         env2 = env + [(b, REC(e))]
@@ -1196,7 +1263,7 @@ class ProgGen:
             _, elt = r.choice(self.seq_elt_choices(env))
             return SEQ(REC(elt)) if r.random() < 0.6 else SEQ(INT)
         if k < 0.7 and have_seq:
-            return PYL(r.choice([INT, INT, TUP([INT, INT])]))
+            return PYL(r.choice([INT, INT, TUP([INT, INT]), self.genexp_record_type(env)]))
         if k < 0.85:
             return TUP([self.result_type(env, d - 1) for _ in range(r.randrange(1, 4))])
         ctor = r.choice(["P2", "N2", "dict", "R3", "R4", "R5", "R6", "R7"])
